@@ -48,12 +48,14 @@ def rand_name(rnd, kind):
         w = rnd.choice(['inf', 'nan', 'infinity', 'Inf', 'NaN', 'INFINITY', 'Infinity', 'None', 'True', 'False', 'true', 'e', 'E', 'j', 'J', 'lambda', 'is', 'not',
                         'and', 'or', 'in', 'if', 'else', 'self', 'eval', 'int', 'str', 'print', '__class__', '__import__', 'null', 'Null', 'pi', 'Pi'])
         return w if rnd.random() < 0.8 else w + rnd.choice(['_', 'x', 'X_'])
+    if kind == 'predefined':             # the three predefined names are names like any other once the host sets them
+        return rnd.choice(['TRUE', 'FALSE', 'NULL'])
     if kind == 'underscore-digits':      # _x1
         return '_' + ''.join(rnd.choice(L) for _ in range(rnd.randint(1, 3))) + str(rnd.randint(0, 99))
     raise ValueError(kind)
 
 
-NAME_KINDS = ['letters', 'letters', 'underscore-first', 'digits-inside', 'cell-prefix', 'underscore-digits', 'host-language-word']
+NAME_KINDS = ['letters', 'letters', 'underscore-first', 'digits-inside', 'cell-prefix', 'underscore-digits', 'host-language-word', 'predefined']
 
 
 class Falsy(object):
@@ -174,13 +176,13 @@ class Check(FormulaCheck):
                 self.e = hx.Env()          # a fresh parser now and then (hundreds of names per parser otherwise)
             kind = rnd.choice(NAME_KINDS)
             name = rand_name(rnd, kind)
-            if name in PREDEF or CELLISH.match(name):
+            if (name in PREDEF and kind != 'predefined') or CELLISH.match(name):
                 continue
             v = self.values(rnd)
             self.e.p.set_variable(name, v)
             r = self.parse(name)
             ok = r['error'] is None and (r['result'] is v or (type(r['result']) is type(v) and canon(r['result']) == canon(v)))
-            tag = ':name-with-cell-shaped-prefix' if kind == 'cell-prefix' else (':underscore-then-digits' if kind == 'underscore-digits' else (':host-language-word' if kind == 'host-language-word' else ''))
+            tag = ':name-with-cell-shaped-prefix' if kind == 'cell-prefix' else (':underscore-then-digits' if kind == 'underscore-digits' else (':host-language-word' if kind == 'host-language-word' else (':predefined-name' if kind == 'predefined' else '')))
             self.expect('C09/variable-does-not-evaluate-to-its-value' + tag, ok, name=name, value=v, record=r)
             if name not in ('TRUE', 'FALSE', 'NULL'):
                 ro = self.hx_parser().parse(name)
@@ -199,6 +201,8 @@ class Check(FormulaCheck):
             ok = r['error'] is None and (r['result'] is v2 or (type(r['result']) is type(v2) and canon(r['result']) == canon(v2)))
             self.expect('C09/rebound-variable-keeps-old-value' + tag, ok, name=name, old=v, new=v2, record=r)
             rec.sample({'name': name, 'value': repr(v)}, k=6)
+            if kind == 'predefined':
+                self.e = hx.Env()          # (the next names get a parser whose TRUE is TRUE)
 
     def hx_parser(self):
         import hotxlfp
